@@ -153,11 +153,15 @@ Section Inversion.
   Lemma de_named_some_ok dr df ps kvs l : de_named T dr df ps kvs = Some l -> de_named T dr df ps kvs <> None.
   Proof. congruence. Qed.
 
+  (* The side condition: the member's type does not reach an Option through Box /
+     transparent / value-constrained newtypes ([missing_val], the chase serde's
+     `missing_field` performs).  With only "not a direct Option" the statement is
+     false: [required_enforced_direct_refuted] below. *)
   Theorem required_enforced f t kvs x n d ps deny :
     get_det T t = Some (DStruct n d ps deny) ->
     de f t (JObj kvs) = Some x ->
     forall p w, In p ps -> p_state p = PRequired -> wire_name p = Some w ->
-                (forall t', get_det T (p_ty p) <> Some (DOption t')) ->
+                (forall g, missing_val T g (p_ty p) = None) ->
                 has_key w kvs = true.
   Proof.
     intros E H p w Hin Hst Hw Hno. destruct (de_some_S _ _ _ _ H) as [f' ->]. rewrite (de_at _ _ _ _ E) in H.
@@ -167,9 +171,7 @@ Section Inversion.
     apply de_struct_obj_ok in H1. destruct H1 as [H1 _].
     rewrite de_named_ok in H1. specialize (H1 p w Hin Hw). unfold member_val in H1.
     unfold has_key. destruct (assoc w kvs); [reflexivity|].
-    exfalso. apply H1. unfold missing. rewrite Hst.
-    destruct (get_det T (p_ty p)) as [d0|] eqn:Ed; [|reflexivity].
-    destruct d0; try reflexivity. exfalso. eapply Hno. reflexivity.
+    exfalso. apply H1. rewrite (missing_required_chase re_match native_ok T _ _ _ Hst). apply Hno.
   Qed.
 
   (* ---- closed structs ---- *)
@@ -381,7 +383,7 @@ Section BodyLevel.
   Lemma struct_body_required ps deny kvs x p w :
     de_struct_body T dr df ps deny (JObj kvs) = Some x ->
     In p ps -> p_state p = PRequired -> wire_name p = Some w ->
-    is_option_det (get_det T (p_ty p)) = false -> has_key w kvs = true.
+    dr (p_ty p) JNull <> Some ROptNone -> has_key w kvs = true.
   Proof.
     intros H Hin Hst Hw Hno. cbn [de_struct_body] in H.
     assert (H1 : de_struct_obj T dr df ps deny kvs <> None)
@@ -389,8 +391,7 @@ Section BodyLevel.
     apply de_struct_obj_ok in H1. destruct H1 as [H1 _].
     rewrite de_named_ok in H1. specialize (H1 p w Hin Hw). unfold member_val in H1.
     unfold has_key. destruct (assoc w kvs); [reflexivity|].
-    exfalso. apply H1. unfold missing. rewrite Hst.
-    destruct (get_det T (p_ty p)) as [d0|]; [|reflexivity]. destruct d0; try reflexivity. discriminate.
+    exfalso. apply H1. apply missing_required_none; assumption.
   Qed.
 
   Lemma struct_body_closed ps kvs x k j :
@@ -509,14 +510,34 @@ Section RootSound.
            | (?a && ?b = true) => let H' := fresh "L" in apply andb_true_iff in H; destruct H as [H H']
            end.
 
+  (* a type the checker says does not reach an Option never reads null as the
+     bare None: a required member of that type cannot be absent *)
+  Lemma reaches_option_chase : forall fuel g i, missing_val T g i <> None -> reaches_option T fuel i = true.
+  Proof.
+    induction fuel as [|fuel IH]; intros g i H; [reflexivity|].
+    destruct g as [|g]; [exfalso; apply H; reflexivity|]. cbn [missing_val] in H. cbn [reaches_option].
+    destruct (get_det T i) as [[]|]; try (exfalso; apply H; reflexivity); try reflexivity.
+    - destruct c; try (exfalso; apply H; reflexivity); apply (IH g);
+        destruct (missing_val T g inner); congruence.
+    - apply (IH g). exact H.
+  Qed.
+
+  Lemma reaches_option_sound fuel i :
+    reaches_option T fuel i = false -> forall g, de g i JNull <> Some ROptNone.
+  Proof.
+    intros H g Hd. apply (de_null_missing_val re native T) in Hd.
+    assert (reaches_option T fuel i = true) by (apply (reaches_option_chase fuel g); congruence). congruence.
+  Qed.
+
   Lemma leaf_sound ed dd d v x dr df :
+    (forall i, reaches_option T RFUEL i = false -> dr i JNull <> Some ROptNone) ->
     LEAF ed dd d = true ->
     de_node re native T dr df d v = Some x ->
     seq_for_struct d v = false -> obj_for_unit_variant d v = false ->
     (ed = true -> enum_part v = true) -> (dd = true -> deny_ok no v = true) ->
     node_ok v = true.
   Proof.
-    intros L Hde S1 S2 He Hd.
+    intros Hnull L Hde S1 S2 He Hd.
     destruct d; cbn [leaf_x] in L; try discriminate.
     - (* DEnum *)
       destruct tag; try discriminate.
@@ -548,7 +569,8 @@ Section RootSound.
           destruct (find_wire_some _ _ _ F) as [Hin Hw].
           apply andb_true_iff in Hk. destruct Hk as [K1 K2]. apply negb_true_iff in K2.
           eapply struct_body_required; try eassumption.
-          destruct (p_state p); try discriminate. reflexivity.
+          -- destruct (p_state p); try discriminate. reflexivity.
+          -- apply Hnull. exact K2.
         * unfold closed_ok. destruct ap as [[[]|]|]; try reflexivity.
           cbn [is_closed negb orb] in L2.
           apply andb_true_iff in L2. destruct L2 as [L2 M3]. apply andb_true_iff in L2. destruct L2 as [M1 M2].
@@ -717,6 +739,8 @@ Section RootSound.
     destruct (get_det T t) as [d|] eqn:E; [|discriminate].
     rewrite (de_at re native T _ _ _ _ E) in Hde.
     cbn [std_wire_at] in Hs. rewrite E in Hs.
+    assert (Hnull : forall i, reaches_option T RFUEL i = false -> de f' i JNull <> Some ROptNone)
+      by (intros i Hi; apply (reaches_option_sound _ _ Hi)).
     destruct (wrapper_of d) as [t'|] eqn:W.
     - destruct d; try discriminate.
       + destruct c; try discriminate. simpl in W. inversion W. subst. cbn [de_node] in Hde. eapply IH; eassumption.
@@ -1430,4 +1454,32 @@ Theorem validated_default_satisfies_list re T f t name def inner c d k :
 Proof.
   intros E H. apply (DefaultsProofs.newtype_default_checked re T f t name def inner _ d k E) in H.
   destruct c; try exact I; cbn [Defaults.constraint_ok] in H; [exact H | apply negb_true_iff; exact H].
+Qed.
+
+(* ------------------------------------------------------------------ the old side condition of
+   [required_enforced] ("the member's type is not a direct Option") is not enough:
+   a required member `a : D0` with `struct D0(Option<bool>)` (transparent newtype)
+   is accepted when absent (observed on compiled code; IR/Serde.v [missing]). *)
+Definition rq_space : space :=
+  mkSpace
+    [ (0%N, mkEntry (DStruct [83%N] None [mkProp [97%N] RNone PRequired 1%N] false) []);
+      (1%N, mkEntry (DNewtype [68%N; 48%N] None 2%N CNone) []);
+      (2%N, mkEntry (DOption 3%N) []);
+      (3%N, mkEntry DBoolean []) ]
+    4%N (mkSettings None [] false []) false false false false [].
+
+Theorem required_enforced_direct_refuted :
+  exists re native T f t kvs x n d ps deny p w,
+    get_det T t = Some (DStruct n d ps deny) /\
+    de re native T f t (JObj kvs) = Some x /\
+    In p ps /\ p_state p = PRequired /\ wire_name p = Some w /\
+    (forall t', get_det T (p_ty p) <> Some (DOption t')) /\
+    has_key w kvs = false.
+Proof.
+  exists (fun _ _ => true), (fun _ _ => true), rq_space, 4, 0%N, [],
+         (RStruct [([97%N], ROptNone)]), [83%N], None,
+         [mkProp [97%N] RNone PRequired 1%N], false, (mkProp [97%N] RNone PRequired 1%N), [97%N].
+  repeat split; try reflexivity.
+  - left. reflexivity.
+  - intros t'. discriminate.
 Qed.
